@@ -1,5 +1,6 @@
 mod engine;
 mod gens;
+mod ls;
 mod oracle;
 mod props;
 mod tools;
